@@ -91,8 +91,8 @@ CHECKS = {
          "DESIGN.md §3 C13"),
  "C16": ("exploration",
          "complete enumeration of CenterVertically geometries; UI frames from the bounded UI exploration",
-         "All geometries prefix 0..7 x centred 1..7 x suffix 0..7 x height 2..10 (thorough: 0..12 / 1..12 / 0..12 / 2..30) with distinct line tokens: exactly h lines, block centred, rows above/below are the tail of the prefix / head of the suffix, ReplaceLastLine replaces only the last line; plus every frame the real UI emits for heights 2..9, 4 start commands and all key sequences up to length 2/3 over 10 keys, followed by two height changes, each (for the start state and the states one key away) followed by an epilogue of keys that shows command, selection, Loading and normal screens again: exactly as many lines as the terminal has rows.",
-         "Trusted: the expected-frame construction in checks/c16/geom.go. UI frames come from the real ui.State over the in-memory peer under the scheduler's default schedule (lib/uidrv, lib/uimodel world).",
+         "All geometries prefix 0..7 x centred 1..7 x suffix 0..7 x height 2..10 (thorough: 0..12 / 1..12 / 0..12 / 2..30) with distinct line tokens: exactly h lines, block centred, rows above/below are the tail of the prefix / head of the suffix, ReplaceLastLine replaces only the last line; plus every frame the real UI emits for heights 2..9, 4 start commands and all key sequences up to length 2/3 over 10 keys, followed by two height changes, each (for the start state and the states one key away) followed by an epilogue of keys that shows command, selection, Loading and normal screens again: exactly as many lines as the terminal has rows. End to end: the built servitor program (package main unchanged, in-memory peer) runs on pseudo-terminals of 5 / 8 sizes; every frame it writes before a resize, and after the first frame of the new size, has the terminal's number of rows.",
+         "Trusted: the expected-frame construction in checks/c16/geom.go; lib/e2e (pty driver; frames are what printRaw writes between clear-screen sequences; waiting is bounded at 90 s and only matters when nothing appears; without /dev/ptmx the part is skipped with a note). UI frames come from the real ui.State over the in-memory peer under the scheduler's default schedule (lib/uidrv, lib/uimodel world).",
          "DESIGN.md §3 C16"),
  "C17": ("exploration",
          "complete product of a JSON value grammar and all typed accessors against a reference classifier",
@@ -137,7 +137,7 @@ def main():
         "setup_cmd": "./vcheck setup",
         "hooks": {
             "guard": "verif",
-            "enable": "checks build /repo's current working tree with `go build -tags verif -overlay <generated>`: the overlay adds the verifrt run-time packages and //go:build verif accessor files and replaces ui, pub, splicer, client and jtp by mechanically rewritten copies (cmd/mkoverlay); nothing is committed to /repo for hooks",
+            "enable": "checks build /repo's current working tree with `go build -tags verif -overlay <generated>`: the overlay adds the verifrt run-time packages and //go:build verif accessor files (one of them in package main: it installs the in-memory peer when the built program is driven through a pseudo-terminal) and replaces ui, pub, splicer, client and jtp by mechanically rewritten copies (cmd/mkoverlay); nothing is committed to /repo for hooks",
             "baseline_off_cmd": "cd /repo && GOFLAGS=-mod=mod GOPROXY=off GOSUMDB=off GOTOOLCHAIN=local go test -vet=off -count=1 ./...",
             "source_commits": [],
             "add_only": True,
